@@ -319,6 +319,11 @@ def index(eng, st, base: V, idx: V, node):
                 outs.append((s_bad, RaiseV("IndexError", None, f"L{getattr(node, 'lineno', 0)}")))
         return outs
     if isinstance(base, DictV):
+        if isinstance(idx, UnionV):
+            outs = []
+            for s1, i1 in eng.split(st, idx):
+                outs.extend(index(eng, s1, base, i1, node))
+            return outs
         if not fits(idx, base.kk):
             return [(st, RaiseV("KeyError", None, "dict key kind"))]
         k = box(idx, base.kk)
@@ -746,6 +751,12 @@ def clone(v: V) -> V:
 
 def dict_method(eng, st, d: DictV, meth, pos, kw, node):
     if meth == "get":
+        if isinstance(pos[0], UnionV):
+            # an Optional / union key: one path per alternative (a value of another kind than the keys' is never a key)
+            outs = []
+            for s1, k1 in eng.split(st, pos[0]):
+                outs.extend(dict_method(eng, s1, d, meth, [k1, *pos[1:]], kw, node))
+            return outs
         if not fits(pos[0], d.kk):
             return [(st, pos[1] if len(pos) > 1 else NONE)]
         k = box(pos[0], d.kk)
@@ -951,6 +962,14 @@ def abstract_match(pattern: str, how: str):
 
 def regex_method(eng, st, pat, meth, pos, kw, node):
     """Compiled-regex methods: uninterpreted functions of (pattern, arguments) — trusted."""
+    if any(isinstance(p, UnionV) for p in pos):
+        outs = []
+        for s1, vals in eng.split_all(st, list(pos)):
+            if any(isinstance(v, NoneV) for v in vals):
+                outs.append((s1, RaiseV("TypeError", None, f"regex {meth} on None")))
+            else:
+                outs.extend(regex_method(eng, s1, pat, meth, vals, kw, node))
+        return outs
     if meth == "sub" and len(pos) == 2 and all(isinstance(p, StrV) for p in pos):
         eng.trusted_used.add(f"re.sub for pattern {pat.pattern!r}: uninterpreted function of (repl, text)")
         return [(st, StrV(re_sub_fn(pat.pattern)(pos[0].t, pos[1].t)))]
